@@ -118,6 +118,9 @@ def run_c19(tier):
     # the pattern generators of the mania converter: model checking + trace validation of real conversions
     from checks import maniapat
     maniapat.run_mania(res, tier, binp)
+    # the splice machine of the taiko converter
+    from checks import taikosplice
+    taikosplice.run_taiko(res, tier, binp)
     res.assumptions += [
         "key-count rule: exhaustive over the decision table rows (objects <= %d); other conversion output is numeric and validated on recorded conversions, not predicted" % (10 if tier == "quick" else 20),
         "generated maps carry object ids in x and a checksum in the hit sound; burst hits of taiko converts have x = 0",
